@@ -186,6 +186,7 @@ class Typestate(object):
 
 def memo_key_rule(chk, P, ci, m):
     """R-MEMOKEY: in a memoising getter the key tested, the key read and the key stored are one literal."""
+    users = {}
     for memo, info in sorted(m.memo.items()):
         for gq in sorted(info["getters"]):
             fi = P.functions[gq]
@@ -206,6 +207,14 @@ def memo_key_rule(chk, P, ci, m):
             chk.ob("R-MEMOKEY", "%s:%s.%s" % (fi.module.relpath, fi.cls.name, fi.name),
                    "memo key tested == key read == key stored (one literal)", ok,
                    derived="tested %s, read %s, stored %s" % (sorted(tested), sorted(loaded), sorted(stored)), loc=fi.loc())
+            for k_ in stored:
+                users.setdefault((memo, k_), []).append(fi)
+    # one key, one getter: two getters that memoise under the same key hand each other's value out
+    for (memo, k_), fis in sorted(users.items(), key=lambda kv: repr(kv[0])):
+        names = sorted({f.name for f in fis})
+        chk.ob("R-MEMOKEY", "%s:%s.%s[%r]" % (fis[0].module.relpath, fis[0].cls.name, memo, k_), "a memo key is stored by one getter only",
+               len(names) == 1, derived="stored by %s" % names, loc=fis[-1].loc(),
+               detail="whichever of them is read first decides what the other returns" if len(names) > 1 else None)
 
 
 def entries_of(ci):
